@@ -19,7 +19,9 @@ func init() {
 			"(c) bound: the attempt counter is a cell of the outer function (a captured local, or a field of the state object handed to the function the callback forwards to) that starts at 0 and is written in the callback only by one +1 store — or starts at the caller's limit and is written only by one -1 store; every FetchSignatureBlob and Verifier.Verify call is cut by counter < MaxSignatureAttempts of the caller's options (counting down: counter != 0) and preceded by that store in the same iteration; " +
 			"(d) early exit: from Verifier.Verify err == nil no further fetch/verify call, no loop continuation and no nil return of the callback is reachable; the outcome list stored is exactly that call's outcome; the success flag is set only there; " +
 			"the outer success exit requires the flag (or, without a flag, a non-nil outcome list that only that store can make non-nil), a non-zero counter and returns the resolved descriptor with those outcomes; (e) a fetch error and a nil outcome leave the callback only through failing exits. " +
-			"Gates and repository calls that live in unexported helpers of the outer function are decided there and composed at the call site (cut sets followed into helpers).",
+			"Gates and repository calls that live in unexported helpers of the outer function are decided there and composed at the call site (cut sets followed into helpers). " +
+			"The loop body may hand each listed manifest to one per-signature worker (function, method of the state object, or closure; entered from that one call only) that fetches and/or verifies: (c)-(e) are then decided over loop body and worker together — order across the call, and 'after the event' by a case split on the worker's exits, removing the caller's edges the returned values contradict. " +
+			"The shared state may be captured locals or fields of one struct of the outer function (reached through a captured variable or handed on as an argument), used field by field only.",
 		NotCov:  "how concrete repositories page their listing (the callback may be invoked any number of times: the rules hold per invocation and for the shared counter cell).",
 		Trusted: []string{"go/types, go/ssa", "oras-go registry.ParseReference / ValidateReferenceAsDigest", "registry.Repository implementations call the callback sequentially"},
 	})
@@ -324,45 +326,43 @@ func runC10(c *Ctx) {
 		x.page = x.A.Params[0]
 	}
 	fetch, verify, nFetch, nVerify := findSites(x.A)
-	if fetch == nil && verify == nil {
+	if fetch == nil && verify == nil && len(x.A.Blocks) == 1 {
 		// The callback forwards the page to a module function (`func(page) error { return run.processPage(ctx, page) }`):
 		// one block, one call, the call's error returned as it is. The listing then sees exactly what that function returns,
 		// once per page, so every rule about "the callback" is a rule about that function. Its state lives in the object it
 		// is handed (fields instead of captured locals), which only the outer function and that function may touch.
 		okFwd := false
-		if len(x.A.Blocks) == 1 {
-			if ret, ok := blockTerm(x.A.Blocks[0]).(*ssa.Return); ok && len(ret.Results) == 1 {
-				if fc, ok := ret.Results[0].(*ssa.Call); ok {
-					if g := staticCallee(fc); g != nil && g.Blocks != nil && w.IsProductFn(g) && len(fc.Call.Args) == len(g.Params) {
-						x.fc, x.CB, x.page = fc, g, nil
-						nPage := 0
-						for i, a := range fc.Call.Args {
-							if len(x.A.Params) > 0 && a == ssa.Value(x.A.Params[0]) {
-								x.page = g.Params[i]
-								nPage++
+		if ret, ok := blockTerm(x.A.Blocks[0]).(*ssa.Return); ok && len(ret.Results) == 1 {
+			if fc, ok := ret.Results[0].(*ssa.Call); ok {
+				if g := staticCallee(fc); g != nil && g.Blocks != nil && w.IsProductFn(g) && len(fc.Call.Args) == len(g.Params) {
+					x.fc, x.CB, x.page = fc, g, nil
+					nPage := 0
+					for i, a := range fc.Call.Args {
+						if len(x.A.Params) > 0 && a == ssa.Value(x.A.Params[0]) {
+							x.page = g.Params[i]
+							nPage++
+						}
+						if x.obj != nil {
+							continue
+						}
+						// the state object: a pointer to a struct allocated in the outer function
+						if fv, ok := a.(*ssa.FreeVar); ok {
+							if al, ok := x.bind[fv].(*ssa.Alloc); ok && al.Parent() == W && c10IsStructPtr(al.Type()) {
+								x.obj, x.objParam = al, g.Params[i]
 							}
-							if x.obj != nil {
-								continue
-							}
-							// the state object: a pointer to a struct allocated in the outer function
-							if fv, ok := a.(*ssa.FreeVar); ok {
-								if al, ok := x.bind[fv].(*ssa.Alloc); ok && al.Parent() == W && c10IsStructPtr(al.Type()) {
-									x.obj, x.objParam = al, g.Params[i]
-								}
-							} else if u, ok := c10IsLoad(a); ok {
-								if fv, ok := u.X.(*ssa.FreeVar); ok {
-									if p, ok := x.bind[fv].(*ssa.Alloc); ok && p.Parent() == W {
-										if ps := x.stores(c10cell{p, -1}); ps.ok && len(ps.sts) == 1 {
-											if al, ok := ps.sts[0].Val.(*ssa.Alloc); ok && al.Parent() == W && c10IsStructPtr(al.Type()) {
-												x.obj, x.objPtr, x.objParam = al, p, g.Params[i]
-											}
+						} else if u, ok := c10IsLoad(a); ok {
+							if fv, ok := u.X.(*ssa.FreeVar); ok {
+								if p, ok := x.bind[fv].(*ssa.Alloc); ok && p.Parent() == W {
+									if ps := x.stores(c10cell{p, -1}); ps.ok && len(ps.sts) == 1 {
+										if al, ok := ps.sts[0].Val.(*ssa.Alloc); ok && al.Parent() == W && c10IsStructPtr(al.Type()) {
+											x.obj, x.objPtr, x.objParam = al, p, g.Params[i]
 										}
 									}
 								}
 							}
 						}
-						okFwd = nPage == 1
 					}
+					okFwd = nPage == 1
 				}
 			}
 		}
@@ -387,13 +387,91 @@ func runC10(c *Ctx) {
 			}
 		}
 		c.Check(nRef == 1, "precedence/callback-only-listed", "the callback is invoked only by ListSignatures", w.FnPos(x.CB), fmt.Sprintf("%d references to %s (expected: the forwarding call in the callback only)", nRef, fnName(x.CB)))
-		if x.obj != nil {
-			okObj, why := x.objectDiscipline()
-			c.Check(okObj, "callback/state-object", "the state object of the verification is reachable only by the outer function and the function the callback forwards to, and only field by field", w.InstrPos(x.obj), why)
+	}
+	if fetch == nil || verify == nil {
+		// The loop body hands each listed manifest to a per-signature worker — one module function, method or closure that
+		// is called at one place of the page worker and does the fetch, the verification or both (see extra_c10.go, "the
+		// per-signature worker"). The worker is entered from that call only (checked below), so what it does is what the
+		// loop body does at the call, with the worker's parameters standing for the call's arguments; every rule below is
+		// decided over the page worker and the worker together. State shared with the outer function is reached by the
+		// worker the same way as by the page worker: captured locals (a closure) or the state object handed on to it.
+		type cand struct {
+			fn   *ssa.Function
+			mc   *ssa.MakeClosure
+			call *ssa.Call
+		}
+		var cands []cand
+		for _, ci := range allCalls(x.CB) {
+			call, ok := ci.(*ssa.Call)
+			if !ok {
+				continue
+			}
+			g, gmc := x.callee(call)
+			if g == nil || g.Blocks == nil || g == x.CB || g == x.A || g == W || !w.IsProductFn(g) || fnPkg(g) != fnPkg(W) || len(call.Call.Args) != len(g.Params) {
+				continue
+			}
+			// "per signature": the call is made inside a loop of the page worker (which loop: decided below)
+			looped := false
+			for _, l := range allLoops(x.CB) {
+				if loopBlocks(l.Header)[call.Block().Index] {
+					looped = true
+				}
+			}
+			if f2, v2, _, _ := findSites(g); looped && (f2 != nil || v2 != nil) {
+				cands = append(cands, cand{g, gmc, call})
+			}
+		}
+		if len(cands) == 1 {
+			x.H, x.hmc, x.hc = cands[0].fn, cands[0].mc, cands[0].call
+			if x.hmc != nil {
+				// the closure's captured variables are the outer function's cells, directly or through the callback's own captures
+				for i, fv := range x.H.FreeVars {
+					if i >= len(x.hmc.Bindings) {
+						break
+					}
+					b := x.hmc.Bindings[i]
+					if ofv, isFv := b.(*ssa.FreeVar); isFv {
+						b = x.bind[ofv]
+					}
+					if b != nil {
+						x.bind[fv] = b
+					}
+				}
+			}
+			if x.obj == nil {
+				x.findStateObject()
+			}
+			for i, a := range x.hc.Call.Args {
+				if x.isObj(a) {
+					x.objParams = append(x.objParams, x.H.Params[i])
+				}
+			}
+			x.memo = map[c10cell]c10stores{}
+			c.SeenFn(x.H.String())
+			f2, v2, nf2, nv2 := findSites(x.H)
+			if fetch == nil {
+				fetch = f2
+			}
+			if verify == nil {
+				verify = v2
+			}
+			nFetch, nVerify = nFetch+nf2, nVerify+nv2
+			okOnly, why := x.workerOnlyCalledInLoop()
+			c.Check(okOnly, "precedence/callback-only-listed", "the callback is invoked only by ListSignatures", w.FnPos(x.H), why)
+		} else if len(cands) > 1 {
+			c.Bad("callback/anchors", "the callback fetches and verifies each listed signature", w.FnPos(x.CB), fmt.Sprintf("the fetch and verify calls are spread over %d helper calls of the callback", len(cands)))
+			return
 		}
 	}
+	if x.obj == nil {
+		x.findStateObject()
+		x.memo = map[c10cell]c10stores{}
+	}
+	if x.obj != nil {
+		okObj, why := x.objectDiscipline()
+		c.Check(okObj, "callback/state-object", "the state object of the verification is reachable only by the outer function and the function the callback forwards to, and only field by field", w.InstrPos(x.obj), why)
+	}
 	CB := x.CB
-	cfi := w.Info(CB)
 	if fetch == nil || verify == nil {
 		c.Bad("callback/anchors", "the callback fetches and verifies each listed signature", w.FnPos(CB), fmt.Sprintf("fetch=%v verify=%v", fetch != nil, verify != nil))
 		return
@@ -401,18 +479,24 @@ func runC10(c *Ctx) {
 	c.Check(nFetch == 1 && nVerify == 1, "callback/single-sites", "one fetch site and one verify site per iteration", w.FnPos(CB), fmt.Sprintf("%d fetch sites, %d verify sites", nFetch, nVerify))
 	// verify arguments
 	c.Check(x.isResolved(verify.Call.Args[1]), "callback/verify-resolved-descriptor", "provenance: each signature is verified against the resolved descriptor", w.InstrPos(verify), "Verify receives "+desc(verify.Call.Args[1]))
-	if ex, ok := verify.Call.Args[2].(*ssa.Extract); !ok || ex.Tuple != fetch || ex.Index != 0 {
+	// (a fetch made in the per-signature worker: the blob is what the worker hands back on every exit after a good fetch)
+	if !x.yields(verify.Call.Args[2], fetch, 0, c10assume{fetch, 2, true}) {
 		c.Bad("callback/verify-fetched-blob", "provenance: the envelope verified is the blob just fetched", w.InstrPos(verify), "Verify receives "+desc(verify.Call.Args[2]))
 	} else {
 		c.OK("callback/verify-fetched-blob", "provenance: the envelope verified is the blob just fetched", w.InstrPos(verify))
 	}
 	// the fetched manifest is the loop element
 	// the innermost loop that contains the fetch
+	// (for a fetch made in the per-signature worker: the loop that contains the worker's call)
+	var iterSite ssa.Instruction = fetch
+	if fetch.Parent() != CB {
+		iterSite = x.hc
+	}
 	var loop *loopRef
 	for _, l := range allLoops(CB) {
 		l := l
 		lb := loopBlocks(l.Header)
-		if lb[fetch.Block().Index] && (loop == nil || len(lb) < len(loopBlocks(loop.Header))) {
+		if lb[iterSite.Block().Index] && (loop == nil || len(lb) < len(loopBlocks(loop.Header))) {
 			loop = &l
 		}
 	}
@@ -421,11 +505,19 @@ func runC10(c *Ctx) {
 		return
 	}
 	inLoop := loopBlocks(loop.Header)
+	if x.H != nil && !inLoop[x.hc.Block().Index] {
+		c.Bad("callback/loop", "the callback iterates over the listed manifests", w.InstrPos(x.hc), "the per-signature worker is not called inside the loop that contains the fetch")
+		return
+	}
 	pageD := "param:?"
 	if x.page != nil {
 		pageD = "param:" + x.page.Name()
 	}
-	c.Check(strings.Contains(desc(loop.X), pageD) && strings.Contains(desc(fetch.Call.Args[1]), pageD), "callback/fetch-listed-manifest", "provenance: the blob fetched belongs to the listed manifest of this iteration (listing order)", w.InstrPos(fetch), "Fetch receives "+desc(fetch.Call.Args[1]))
+	fetchD := desc(fetch.Call.Args[1])
+	if x.H != nil && fetch.Parent() == x.H {
+		fetchD = x.toCB(fetchD) // the worker's parameters are the arguments of its call in the loop body
+	}
+	c.Check(strings.Contains(desc(loop.X), pageD) && strings.Contains(fetchD, pageD), "callback/fetch-listed-manifest", "provenance: the blob fetched belongs to the listed manifest of this iteration (listing order)", w.InstrPos(fetch), "Fetch receives "+fetchD)
 
 	// shared(st): the cell a store of the callback writes, if it is state shared with the outer function
 	shared := func(addr ssa.Value) (c10cell, bool) {
@@ -449,7 +541,7 @@ func runC10(c *Ctx) {
 	var inc *ssa.Store
 	down := false
 	nInc := 0
-	for _, b := range CB.Blocks {
+	for _, b := range x.cbBlocks() {
 		for _, in := range b.Instrs {
 			st, ok := in.(*ssa.Store)
 			if !ok {
@@ -477,15 +569,15 @@ func runC10(c *Ctx) {
 		nW, nCB, nOther := 0, 0, 0
 		okInit := !down // the zero value of the fresh cell
 		for _, st := range cs.sts {
-			switch st.Parent() {
-			case W:
+			switch {
+			case st.Parent() == W:
 				nW++
 				if down {
 					okInit = x.isLimit(st.Val)
 				} else {
 					okInit = c10IntConst(st.Val, 0)
 				}
-			case CB:
+			case x.inCallback(st.Parent()):
 				nCB++
 			default:
 				nOther++
@@ -503,7 +595,7 @@ func runC10(c *Ctx) {
 		}
 		isCnt := func(v ssa.Value) bool {
 			lc, isLoad := x.cellOfLoad(v)
-			return isLoad && lc == counter && inLoop[v.(*ssa.UnOp).Block().Index]
+			return isLoad && lc == counter && x.inIter(v.(*ssa.UnOp), inLoop)
 		}
 		if down {
 			if isCnt(a) && (((op == token.NEQ || op == token.GTR) && c10IntConst(b, 0)) || (op == token.GEQ && c10IntConst(b, 1))) {
@@ -520,10 +612,7 @@ func runC10(c *Ctx) {
 		return false, false
 	}
 	for _, call := range []*ssa.Call{fetch, verify} {
-		var edges []c10Edge
-		if call.Block() != loop.Body {
-			edges = c10MustPassEdges(cfi, loop.Body, blocksOf(call))
-		}
+		edges := x.iterEdges(loop.Body, call)
 		name := strings.TrimPrefix(calleeName(call), "invoke:")
 		okG, okL := false, false
 		var seen []string
@@ -537,34 +626,30 @@ func runC10(c *Ctx) {
 		c.Evals++
 		c.Check(okG && okL, "bound/guard/"+name, "effect-site gate (per iteration): the call is reachable only through counter < MaxSignatureAttempts of the caller's options (counting down: counter != 0), tested in the same iteration", w.InstrPos(call),
 			fmt.Sprintf("guard present=%v limit is the caller's MaxSignatureAttempts=%v; per-iteration guards: {%s}", okG, okL, strings.Join(seen, "; ")))
-		// preceded by the counting store in the same iteration
-		cut := map[edgeKey]bool{}
-		cutInto(cfi, inc.Block(), cut)
-		okInc := inc.Block() == call.Block() && instrIndex(inc) < instrIndex(call)
-		if !okInc && inc.Block() != loop.Body {
-			okInc = !cfi.reachHit([]state{{loop.Body.Index, 0, -1}}, cut, blocksOf(call))
-		} else if inc.Block() == loop.Body {
-			okInc = true
-		}
+		// preceded by the counting store in the same iteration (store and call in the loop body or in the worker)
+		okInc := x.precedesInIter(loop.Body, inc, call)
 		c.Check(okInc, "bound/counted/"+name, "every attempt is counted: the counting store precedes the call on every path of the iteration", w.InstrPos(call), "an attempt can be made without being counted")
 	}
 	// the counting store happens after the guard of the same iteration (the counter is compared before being changed)
 	{
 		found := false
-		if inc.Block() != loop.Body {
-			for _, e := range c10MustPassEdges(cfi, loop.Body, blocksOf(inc)) {
-				if a, _ := limGuard(e); a {
-					found = true
-				}
+		for _, e := range x.iterEdges(loop.Body, inc) {
+			if a, _ := limGuard(e); a {
+				found = true
 			}
 		}
 		c.Check(found, "bound/guard-before-count", "the limit is tested before the attempt is counted (at most N attempts, not N-1 or N+1)", w.InstrPos(inc), "the counter is changed before/without the limit test")
 	}
 
 	// ---- (d) early exit -----------------------------------------------------
+	// The success branch: the edge on which Verifier.Verify's error is nil — in the function that makes the call or, when
+	// the per-signature worker hands Verify's error back as it is, in the loop body on that result of the worker's call.
 	okLbl := "EQ(" + desc(verify) + "#err,nil)"
+	VF := verify.Parent()
+	vfi := w.Info(VF)
+	verifiedOK := c10assume{verify, 1, true}
 	var succBlock *ssa.BasicBlock
-	for _, b := range CB.Blocks {
+	for _, b := range VF.Blocks {
 		if iff, ok := blockTerm(b).(*ssa.If); ok {
 			for j := 0; j < 2; j++ {
 				if condLabel(iff.Cond, j == 0) == okLbl {
@@ -573,23 +658,76 @@ func runC10(c *Ctx) {
 			}
 		}
 	}
-	if succBlock == nil {
+	anchored := succBlock != nil
+	if !anchored && x.H != nil && VF == x.H {
+		for _, b := range CB.Blocks {
+			iff, ok := blockTerm(b).(*ssa.If)
+			if !ok {
+				continue
+			}
+			if o, _, ok := c10NilTest(iff.Cond, true); ok {
+				if k := c10ResultIdx(x.hc, o); k >= 0 {
+					for _, e := range c10Exits(vfi, []state{{verify.Block().Index, 0, -1}}, nil) {
+						if rv := c10ExitResult(e, k); rv != nil && c10IsResult(rv, verify, 1) {
+							anchored = true
+						}
+					}
+				}
+			}
+		}
+	}
+	if !anchored {
 		c.Bad("early-exit/anchor", "the callback branches on Verifier.Verify err == nil", w.InstrPos(verify), "no such branch")
 		return
 	}
-	start := []state{{succBlock.Index, 0, -1}}
-	more := cfi.reachHit(start, nil, map[int]bool{loop.Header.Index: true, fetch.Block().Index: true, verify.Block().Index: true})
-	wit := cfi.successWitness(Mode{Kind: mErr}, start, nil)
-	c.Evals += 2
+	// What can run after Verify returned a nil error: the rest of the function that called it, without the edges on which
+	// that error is non-nil; when that function is the per-signature worker, also the loop body from the worker's call
+	// site, once for every exit the worker can still take, without the edges those returned values contradict.
+	more := false
+	var wit []string
+	for _, ct := range x.forward(verify, verifiedOK) {
+		tg := map[int]bool{}
+		for _, in := range []ssa.Instruction{fetch, verify} {
+			if in.Parent() == ct.fi.Fn {
+				tg[in.Block().Index] = true
+			}
+		}
+		if ct.fi.Fn == CB {
+			tg[loop.Header.Index] = true
+			if x.H != nil {
+				tg[x.hc.Block().Index] = true
+				// a fetch or verification right after the worker's call, in the same block
+				for _, in := range []ssa.Instruction{fetch, verify} {
+					if VF == x.H && in.Parent() == CB && in.Block() == x.hc.Block() && instrIndex(in) > instrIndex(x.hc) {
+						more = true
+					}
+				}
+			}
+			if wt := ct.fi.successWitness(Mode{Kind: mErr}, ct.starts, ct.cut); wt != nil && wit == nil {
+				wit = wt
+			}
+		}
+		if ct.fi.reachHit(ct.starts, ct.cut, tg) {
+			more = true
+		}
+		c.Evals += 2
+	}
 	c.Check(!more && wit == nil, "early-exit/stop-after-success", "after the first successful verification the callback returns a non-nil sentinel: no further fetch, verification or iteration, and the listing is not continued", w.InstrPos(verify),
 		fmt.Sprintf("further processing reachable=%v, nil return reachable=%v", more, wit != nil), wit...)
-	// stores in the success region
+	// stores in the success region: behind the success branch in the function that called Verify; a store of the loop
+	// body, when Verify is called in the per-signature worker: reachable only from exits of the worker that lie behind
+	// Verify's nil error
 	afterVerify := func(st *ssa.Store) bool {
-		return labelHas(cfi.GuardsOf(st), okLbl) || st.Block() == succBlock
+		if st.Parent() == VF {
+			return labelHas(vfi.GuardsOf(st), okLbl) || (succBlock != nil && st.Block() == succBlock)
+		}
+		return x.onlyAfterWorkerSuccess(st, verify, 1)
 	}
+	// the outcome of the signature that verified: result 0 of that Verify call, or what the worker hands back for it
+	isOutcome := func(v ssa.Value) bool { return x.yields(v, verify, 0, verifiedOK) }
 	var flag, out *c10cell
 	okOut := false
-	for _, b := range CB.Blocks {
+	for _, b := range x.cbBlocks() {
 		for _, in := range b.Instrs {
 			st, ok := in.(*ssa.Store)
 			if !ok {
@@ -607,10 +745,8 @@ func runC10(c *Ctx) {
 			if strings.Contains(st.Val.Type().String(), "VerificationOutcome") && strings.HasPrefix(st.Val.Type().String(), "[]") {
 				out = &cell2
 				els := sliceLitElems(st.Val)
-				if len(els) == 1 {
-					if ex, ok := els[0].(*ssa.Extract); ok && ex.Tuple == verify && ex.Index == 0 {
-						okOut = true
-					}
+				if len(els) == 1 && isOutcome(els[0]) {
+					okOut = true
 				}
 				if !afterVerify(st) {
 					okOut = false
@@ -633,7 +769,7 @@ func runC10(c *Ctx) {
 		for _, st := range fs.sts {
 			bv, isK := c10BoolConst(st.Val)
 			switch {
-			case st.Parent() == CB && isK && bv: // judged above
+			case x.inCallback(st.Parent()) && isK && bv: // judged above
 			case st.Parent() == W && isK && !bv:
 			default:
 				okF = false
@@ -659,7 +795,7 @@ func runC10(c *Ctx) {
 		okF := os.ok
 		for _, st := range os.sts {
 			switch {
-			case st.Parent() == CB:
+			case x.inCallback(st.Parent()):
 				sl, isSl := st.Val.(*ssa.Slice)
 				if !isSl || !afterVerify(st) {
 					okF = false
@@ -736,30 +872,35 @@ func runC10(c *Ctx) {
 	}
 
 	// ---- (e) failures in the callback ---------------------------------------
+	// From the event (the fetch returned an error / Verify returned a nil outcome) on, in this invocation of the callback:
+	// the rest of the function that made the call without the edges that contradict the event and, for a call made in the
+	// per-signature worker, the loop body after the worker returned through any exit it can still take.
 	for _, fc := range []struct {
-		key, lbl, what string
+		key  string
+		ev   c10assume
+		what string
 	}{
-		{"fail/fetch-error", "NE(" + desc(fetch) + "#err,nil)", "a signature that cannot be fetched"},
-		{"fail/nil-outcome", "EQ(" + desc(verify) + "#0,nil)", "a failed verification without outcome"},
+		{"fail/fetch-error", c10assume{fetch, 2, false}, "a signature that cannot be fetched"},
+		{"fail/nil-outcome", c10assume{verify, 0, true}, "a failed verification without outcome"},
 	} {
-		var tgt *ssa.BasicBlock
-		for _, b := range CB.Blocks {
-			if iff, ok := blockTerm(b).(*ssa.If); ok {
-				for j := 0; j < 2; j++ {
-					if condLabel(iff.Cond, j == 0) == fc.lbl {
-						tgt = b.Succs[j]
-					}
-				}
-			}
-		}
-		if tgt == nil {
-			c.Bad(fc.key, fc.what+" ends the callback with an error", w.FnPos(CB), "no branch on "+fc.lbl)
+		if len(c10AssumeCut(fc.ev.call.Parent(), []c10assume{fc.ev})) == 0 && !(x.H != nil && fc.ev.call.Parent() == x.H) {
+			c.Bad(fc.key, fc.what+" ends the callback with an error", w.FnPos(CB), "no branch on "+desc(fc.ev.call)+fmt.Sprintf("#%d", fc.ev.idx))
 			continue
 		}
-		st := []state{{tgt.Index, 0, -1}}
-		cont := cfi.reachHit(st, nil, map[int]bool{loop.Header.Index: true})
-		wit := cfi.successWitness(Mode{Kind: mErr}, st, nil)
-		c.Evals++
+		cont := false
+		var wit []string
+		for _, ct := range x.forward(fc.ev.call, fc.ev) {
+			if ct.fi.Fn != CB {
+				continue
+			}
+			if ct.fi.reachHit(ct.starts, ct.cut, map[int]bool{loop.Header.Index: true}) {
+				cont = true
+			}
+			if wt := ct.fi.successWitness(Mode{Kind: mErr}, ct.starts, ct.cut); wt != nil && wit == nil {
+				wit = wt
+			}
+			c.Evals++
+		}
 		c.Check(!cont && wit == nil, fc.key, fc.what+" ends the callback with an error: the loop does not continue and nil is not returned", w.FnPos(CB), fmt.Sprintf("loop continues=%v nil return=%v", cont, wit != nil), wit...)
 	}
 	// a failed verification with outcome continues and records the error (not a success)
@@ -776,16 +917,44 @@ func c10IsStructPtr(t types.Type) bool {
 
 // objectDiscipline: the state object is used only through its fields — by the outer function (directly or through the
 // one local that holds its address), by the callback only to hand it to the page worker, by the page worker only through
-// the parameter that receives it. Then the stores found by field (c10frame.stores) are all the stores there are.
+// the parameter that receives it — field by field, or handed on as it is to the per-signature worker at its one call
+// site, which again uses the parameter that receives it field by field only. Then the stores found by field
+// (c10frame.stores, which looks at all these functions) are all the stores there are.
 func (x *c10frame) objectDiscipline() (bool, string) {
+	isObjParam := func(p *ssa.Parameter) bool {
+		for _, q := range x.objParams {
+			if q == p {
+				return true
+			}
+		}
+		return false
+	}
 	onlyFields := func(v ssa.Value, what string) string {
 		refs := v.Referrers()
 		if refs == nil {
 			return ""
 		}
 		for _, r := range *refs {
-			switch r.(type) {
+			switch u := r.(type) {
 			case *ssa.FieldAddr, *ssa.DebugRef:
+			case *ssa.MakeClosure:
+				// captured once more by the per-signature worker made inside the callback (its uses are judged below)
+				if x.hmc == nil || u != x.hmc {
+					return what + " is captured by another closure (" + x.w.InstrPos(r) + ")"
+				}
+			case *ssa.Call:
+				// handed to the per-signature worker: only as an argument whose parameter is known to alias the object
+				okCall := x.H != nil && u == x.hc && u.Call.Value != v && len(u.Call.Args) == len(x.H.Params)
+				if okCall {
+					for i, a := range u.Call.Args {
+						if a == v && !isObjParam(x.H.Params[i]) {
+							okCall = false
+						}
+					}
+				}
+				if !okCall {
+					return what + " is used other than field by field (" + x.w.InstrPos(r) + ")"
+				}
 			default:
 				return what + " is used other than field by field (" + x.w.InstrPos(r) + ")"
 			}
@@ -801,7 +970,7 @@ func (x *c10frame) objectDiscipline() (bool, string) {
 				return false, "the object is overwritten as a whole or its address is stored (" + x.w.InstrPos(u) + ")"
 			}
 		case *ssa.MakeClosure:
-			if u != x.mc {
+			if u != x.mc && (x.hmc == nil || u != x.hmc) {
 				return false, "the object is captured by another closure"
 			}
 		default:
@@ -821,15 +990,40 @@ func (x *c10frame) objectDiscipline() (bool, string) {
 					return false, why
 				}
 			case *ssa.MakeClosure:
-				if u != x.mc {
+				if u != x.mc && (x.hmc == nil || u != x.hmc) {
 					return false, "the object is captured by another closure"
 				}
 			}
 		}
 	}
-	// the callback: hands it to the page worker, nothing else
+	// the callback: hands it to the page worker, nothing else; a callback that does the work itself (and a per-signature
+	// worker that is a closure) uses what it captured field by field
 	for fv, b := range x.bind {
 		if b != ssa.Value(x.obj) && (x.objPtr == nil || b != ssa.Value(x.objPtr)) {
+			continue
+		}
+		if !(x.fc != nil && fv.Parent() == x.A) {
+			if b == ssa.Value(x.obj) {
+				if why := onlyFields(fv, "the object"); why != "" {
+					return false, why
+				}
+				continue
+			}
+			for _, r := range *fv.Referrers() {
+				switch u := r.(type) {
+				case *ssa.DebugRef:
+				case *ssa.UnOp:
+					if why := onlyFields(u, "the object"); why != "" {
+						return false, why
+					}
+				case *ssa.MakeClosure:
+					if x.hmc == nil || u != x.hmc {
+						return false, "the object is captured by another closure"
+					}
+				default:
+					return false, "the variable holding the object is used other than by loading it (" + x.w.InstrPos(r) + ")"
+				}
+			}
 			continue
 		}
 		for _, r := range *fv.Referrers() {
@@ -851,8 +1045,16 @@ func (x *c10frame) objectDiscipline() (bool, string) {
 		}
 	}
 	// the page worker
-	if why := onlyFields(x.objParam, "the object"); why != "" {
-		return false, why
+	if x.objParam != nil {
+		if why := onlyFields(x.objParam, "the object"); why != "" {
+			return false, why
+		}
+	}
+	// the per-signature worker
+	for _, p := range x.objParams {
+		if why := onlyFields(p, "the object"); why != "" {
+			return false, why
+		}
 	}
 	return true, ""
 }
